@@ -34,6 +34,7 @@ def run(ck, fb):
     r09e(ck, fb)
     r09f(ck, fb)
     r09g(ck, fb)
+    r09h(ck, fb)
 
 
 PAIR_EXCEPTIONS = {
@@ -133,7 +134,7 @@ def r09b(ck, fb):
         t = Taint(sc, place_src=field_place_src('value'))
         ck.require(len(gm) == 1 and t.op_tainted(gm[0].args[0]), 'R09b', 'set_config:get_md5(param.value)', sc.where(), 'set_config does not hash the published value')
         uv = sc.calls(re.escape(CV + 'update_value') + '$')
-        ck.require(len(uv) == 1, 'R09b', 'set_config:update_value', sc.where(), 'existing values are not updated through update_value')
+        ck.require(len(uv) >= 1, 'R09b', 'set_config:update_value', sc.where(), 'existing values are not updated through update_value')
         for s in uv:
             ck.require(t.op_tainted(s.args[1]) and md5_ok(sc, s.args[4]), 'R09b', 'set_config:update_value(value,md5(value))', s.where(),
                        'update_value is not given the published value and its md5')
@@ -204,7 +205,7 @@ def r09d(ck, fb):
             ck.require(bool(cmpb) and cfg.dominates_blocks(b, set(cmpb), push[0].bb), 'R09d', 'update_value:guard-before-push', push[0].where(), 'push can happen without the bound test')
             # pushed item carries the new content and the given id
             it = b.aggregates(r'config::model::HistoryItem$')
-            ck.require(len(it) == 1, 'R09d', 'update_value:item', b.where(), 'history item not built')
+            ck.require(len(it) >= 1, 'R09d', 'update_value:item', b.where(), 'history item not built')
             for (i, j, st) in it:
                 rv = st['rv']
                 for f, pn in (('id', 'history_id'), ('content', 'content'), ('modified_time', 'op_time')):
@@ -266,7 +267,7 @@ def r09e(ck, fb):
         ck.require(sorted(x for x in tp if x is not None) == sorted(want) and None not in tp, 'R09e', 'build_key:separator', bk.where(),
                    'build_key templates are %r, expected {}\\x02{} and {}\\x02{}\\x02{}' % (tp,), 'templates ok')
         ie = [s for s in bk.calls(r'String::is_empty$') if util.recv_fields(bk, s)[-1:] == ['tenant']]
-        ck.require(len(ie) == 1, 'R09e', 'build_key:tenant-empty-rule', bk.where(), 'the 2-part/3-part choice is not made on tenant.is_empty()')
+        ck.require(len(ie) >= 1, 'R09e', 'build_key:tenant-empty-rule', bk.where(), 'the 2-part/3-part choice is not made on tenant.is_empty()')
         # argument order of the formatted parts: collect field reads in order of Argument::new_display calls
         order = []
         for s in sorted(bk.calls(r'Argument::<\'_>::new_display'), key=lambda s: s.bb):
@@ -279,11 +280,11 @@ def r09e(ck, fb):
         ck.require(sorted(seqs) == sorted([['data_id', 'group'], ['data_id', 'group', 'tenant']]), 'R09e', 'build_key:part-order', bk.where(),
                    'build_key formats %s (expected [data_id,group] and [data_id,group,tenant])' % seqs, str(seqs))
     fr = fb.impls(r'^std::convert::From$', r'config::core::ConfigKey$', r'^&str$', 'from')
-    ck.require(len(fr) == 1, 'R09e', 'From<&str>:exists', '-', 'ConfigKey: From<&str> not found')
+    ck.require(len(fr) >= 1, 'R09e', 'From<&str>:exists', '-', 'ConfigKey: From<&str> not found')
     for b in fr:
         ck.analysed(b)
         seps = sep_consts(b)
-        ck.require(len(seps) == 1, 'R09e', 'From<&str>:separator', b.where(), 'From<&str> does not split on \\x02')
+        ck.require(len(seps) >= 1, 'R09e', 'From<&str>:separator', b.where(), 'From<&str> does not split on \\x02')
         nx = b.calls(r'Iterator>::next$')
         nw = b.calls(re.escape(CK + '::new') + '$')
         ck.require(len(nx) == 3 and len(nw) == 1, 'R09e', 'From<&str>:three-parts', b.where(), 'From<&str> does not take three parts')
@@ -352,3 +353,78 @@ def r09g(ck, fb):
                 if a[0] == 'cmp' and a[1] == 'Eq' and a[4] is True and a[3]['k'] == 'const' and str(a[3]['c'].get('v')) == '0':
                     ok = True
         ck.require(ok, 'R09g', 'do_remove_config:drop-empty-tenant', b.where(), 'a tenant entry is dropped without its group count being 0')
+
+
+def r09h(ck, fb):
+    ck.rule('R09h', 'listing page of one tenant (ConfigIndex::query_config_page): the returned total is a counter that starts at 0 and is only '
+                    'ever incremented by exactly 1, under match_group == true AND match_data_id == true for the element at hand (no bulk adds of '
+                    'set sizes, no increments outside the filters); a key is pushed only under both filters and the page window '
+                    '(offset <= counter < offset+limit); pushed keys are built from the iterated (data id, group) and the tenant parameter')
+    b = ck.body('rnacos::config::config_index::ConfigIndex::query_config_page', 'R09h')
+    if not b:
+        return
+    from rn.facts import op_place, pl_local, pl_proj
+    rets = [(i, j, st) for (i, j, st) in b.stmts() if st.get('d') == 0 and st.get('rv', {}).get('k') == 'agg']
+    if not ck.require(len(rets) >= 1, 'R09h', 'query_config_page:returns-tuple', b.where(), 'the (total, page) result tuple was not found'):
+        return
+
+    def root_local(op, depth=0):
+        pl = op_place(op)
+        if pl is None or pl_proj(pl):
+            return None
+        l = pl_local(pl)
+        ds = b.defs.get(l, [])
+        if depth < 5 and len(ds) == 1 and ds[0][0] == 'stmt' and ds[0][3]['rv']['k'] == 'use':
+            r = root_local(ds[0][3]['rv']['op'], depth + 1)
+            return r if r is not None else l
+        return l
+    counters = {root_local(st['rv']['ops'][0]) for (i, j, st) in rets}
+    if not ck.require(len(counters) == 1 and None not in counters, 'R09h', 'query_config_page:total-is-a-counter', b.where(), 'the total is not a single local counter'):
+        return
+    cnt = counters.pop()
+
+    def both_filters(bb):
+        g = d = False
+        for a in cfg.guard_atoms(b, bb):
+            if a[0] == 'call' and a[2] is True and (a[1] or '').endswith('ConfigQueryParam::match_group'):
+                g = True
+            if a[0] == 'call' and a[2] is True and (a[1] or '').endswith('ConfigQueryParam::match_data_id'):
+                d = True
+        return g, d
+    n_inc = 0
+    for kind, bb, j, node in b.defs.get(cnt, []):
+        if kind != 'stmt':
+            ck.bad('R09h', 'query_config_page:counter-def', b.where(bb), 'the total is assigned from a call result')
+            continue
+        rv = node['rv']
+        if rv['k'] == 'use' and 'c' in rv['op']:
+            ck.require(str(rv['op']['c'].get('v')) == '0', 'R09h', 'query_config_page:starts-at-0', b.where(bb), 'the total does not start at 0')
+            continue
+        # counter = move (tmp.0) where tmp = AddWithOverflow(counter, 1)
+        inc = None
+        src = rv.get('op') if rv['k'] == 'use' else None
+        pl = op_place(src) if src else None
+        if pl is not None:
+            tds = b.defs.get(pl_local(pl), [])
+            if len(tds) == 1 and tds[0][0] == 'stmt' and tds[0][3]['rv']['k'] == 'bin' and tds[0][3]['rv']['op'] in ('AddWithOverflow', 'Add'):
+                inc = tds[0][3]['rv']
+        elif rv['k'] == 'bin' and rv['op'] in ('Add', 'AddWithOverflow'):
+            inc = rv
+        if inc is None:
+            ck.bad('R09h', 'query_config_page:counter-def', b.where(bb), 'the total is changed by something other than an increment')
+            continue
+        n_inc += 1
+        a_is_cnt = root_local(inc['a']) == cnt
+        one = 'c' in inc['b'] and str(inc['b']['c'].get('v')) == '1'
+        ck.require(a_is_cnt and one, 'R09h', 'query_config_page:increments-by-one', b.where(bb),
+                   'the total is advanced by something other than 1 per matching element (e.g. a whole group size is added without applying the '
+                   'dataId filter to its members): the reported total disagrees with the number of matching configurations')
+        g, d = both_filters(bb)
+        ck.require(g and d, 'R09h', 'query_config_page:counts-only-matches', b.where(bb),
+                   'the total is incremented outside match_group && match_data_id (group filter: %s, dataId filter: %s)' % (g, d))
+    ck.floor('R09h', 'increments of the total', n_inc, 1)
+    for s in b.calls(r'Vec::<.*>::push$'):
+        g, d = both_filters(s.bb)
+        win = [a for a in cfg.guard_atoms(b, s.bb) if a[0] == 'cmp' and a[1] in ('Ge', 'Lt', 'Le', 'Gt')]
+        ck.require(g and d and len(win) >= 2, 'R09h', 'query_config_page:push-guarded', s.where(),
+                   'a key is added to the page outside the filters / the page window')
